@@ -18,57 +18,60 @@ VARIABLES l,          \* next line of the log
           reqBegun, reqEnded, falseSeen,
           mustInline, \* [Cbs -> BOOLEAN] a request_stop() had returned before registration began
           owed,       \* [thread -> set of callbacks registered before this thread's request began]
-          qTrue       \* a stop_requested() sample has returned true
-vars == <<l, phase, owner, execCount, execOpenBy, reqOpen, reqBegun, reqEnded, falseSeen, mustInline, owed, qTrue>>
+          qTrue,      \* a stop_requested() sample has returned true
+          fused       \* this execution requests stop through upstream sources of a fused source / token adapter:
+                      \* request_stop()'s return value on the monitored source is then not observable (r = -1)
+vars == <<l, phase, owner, execCount, execOpenBy, reqOpen, reqBegun, reqEnded, falseSeen, mustInline, owed, qTrue, fused>>
 Fresh == /\ phase = [c \in Cbs |-> "none"] /\ owner = [c \in Cbs |-> 0]
          /\ execCount = [c \in Cbs |-> 0] /\ execOpenBy = [c \in Cbs |-> 0]
          /\ reqOpen = [t \in Thr |-> 0] /\ reqBegun = FALSE /\ reqEnded = FALSE /\ falseSeen = FALSE
-         /\ mustInline = [c \in Cbs |-> FALSE] /\ owed = [t \in Thr |-> {}] /\ qTrue = FALSE
+         /\ mustInline = [c \in Cbs |-> FALSE] /\ owed = [t \in Thr |-> {}] /\ qTrue = FALSE /\ fused = FALSE
 Init == l = 1 /\ Fresh /\ TrackInit
 E == Log[l]
 Is(e) == l <= Len(Log) /\ E.e = e /\ l' = l + 1
 \* end-of-execution obligations, checked when a Reset (or the end of the log) is consumed
 Closed == /\ \A c \in Cbs : execOpenBy[c] = 0
           /\ \A t \in Thr : reqOpen[t] = 0
-          /\ reqEnded => falseSeen
+          /\ (reqEnded /\ ~fused) => falseSeen
           /\ \A c \in Cbs : phase[c] \notin {"registering", "deregistering"}
 Reset == /\ Is("Reset") /\ Closed
          /\ phase' = [c \in Cbs |-> "none"] /\ owner' = [c \in Cbs |-> 0]
          /\ execCount' = [c \in Cbs |-> 0] /\ execOpenBy' = [c \in Cbs |-> 0]
          /\ reqOpen' = [t \in Thr |-> 0] /\ reqBegun' = FALSE /\ reqEnded' = FALSE /\ falseSeen' = FALSE
          /\ mustInline' = [c \in Cbs |-> FALSE] /\ owed' = [t \in Thr |-> {}] /\ qTrue' = FALSE
+         /\ fused' = (E.fused = 1)
 RegBegin == /\ Is("RegBegin") /\ phase[E.c] = "none"
             /\ phase' = [phase EXCEPT ![E.c] = "registering"] /\ owner' = [owner EXCEPT ![E.c] = E.t]
             /\ mustInline' = [mustInline EXCEPT ![E.c] = reqEnded]
-            /\ UNCHANGED <<execCount, execOpenBy, reqOpen, reqBegun, reqEnded, falseSeen, owed, qTrue>>
+            /\ UNCHANGED <<execCount, execOpenBy, reqOpen, reqBegun, reqEnded, falseSeen, owed, qTrue, fused>>
 RegEnd == /\ Is("RegEnd") /\ phase[E.c] = "registering" /\ owner[E.c] = E.t
           /\ mustInline[E.c] => execCount[E.c] = 1            \* late registration ran inline
           /\ execOpenBy[E.c] # E.t                              \* an inline execution has returned
           /\ phase' = [phase EXCEPT ![E.c] = "registered"]
-          /\ UNCHANGED <<owner, execCount, execOpenBy, reqOpen, reqBegun, reqEnded, falseSeen, mustInline, owed, qTrue>>
+          /\ UNCHANGED <<owner, execCount, execOpenBy, reqOpen, reqBegun, reqEnded, falseSeen, mustInline, owed, qTrue, fused>>
 ExecBegin == /\ Is("ExecBegin")
              /\ execCount[E.c] = 0                             \* at most once
              /\ reqBegun                                       \* only if stop was requested
              /\ \/ phase[E.c] = "registering" /\ E.t = owner[E.c]          \* inline in the constructor
                 \/ phase[E.c] \in {"registered", "deregistering"} /\ reqOpen[E.t] > 0
              /\ execCount' = [execCount EXCEPT ![E.c] = 1] /\ execOpenBy' = [execOpenBy EXCEPT ![E.c] = E.t]
-             /\ UNCHANGED <<phase, owner, reqOpen, reqBegun, reqEnded, falseSeen, mustInline, owed, qTrue>>
+             /\ UNCHANGED <<phase, owner, reqOpen, reqBegun, reqEnded, falseSeen, mustInline, owed, qTrue, fused>>
 ExecEnd == /\ Is("ExecEnd") /\ execOpenBy[E.c] = E.t
            /\ execOpenBy' = [execOpenBy EXCEPT ![E.c] = 0]
-           /\ UNCHANGED <<phase, owner, execCount, reqOpen, reqBegun, reqEnded, falseSeen, mustInline, owed, qTrue>>
+           /\ UNCHANGED <<phase, owner, execCount, reqOpen, reqBegun, reqEnded, falseSeen, mustInline, owed, qTrue, fused>>
 DeregBegin == /\ Is("DeregBegin") /\ phase[E.c] = "registered"
               /\ phase' = [phase EXCEPT ![E.c] = "deregistering"] /\ owner' = [owner EXCEPT ![E.c] = E.t]
-              /\ UNCHANGED <<execCount, execOpenBy, reqOpen, reqBegun, reqEnded, falseSeen, mustInline, owed, qTrue>>
+              /\ UNCHANGED <<execCount, execOpenBy, reqOpen, reqBegun, reqEnded, falseSeen, mustInline, owed, qTrue, fused>>
 DeregEnd == /\ Is("DeregEnd") /\ phase[E.c] = "deregistering" /\ owner[E.c] = E.t
             /\ execOpenBy[E.c] \in {0, E.t}                   \* not running on another thread
             /\ phase' = [phase EXCEPT ![E.c] = "gone"]         \* ExecBegin is impossible from now on
-            /\ UNCHANGED <<owner, execCount, execOpenBy, reqOpen, reqBegun, reqEnded, falseSeen, mustInline, owed, qTrue>>
+            /\ UNCHANGED <<owner, execCount, execOpenBy, reqOpen, reqBegun, reqEnded, falseSeen, mustInline, owed, qTrue, fused>>
 ReqBegin == /\ Is("ReqBegin")
             /\ reqOpen' = [reqOpen EXCEPT ![E.t] = @ + 1] /\ reqBegun' = TRUE
             /\ owed' = IF reqOpen[E.t] = 0
                        THEN [owed EXCEPT ![E.t] = {c \in Cbs : phase[c] = "registered" /\ execCount[c] = 0}]
                        ELSE owed
-            /\ UNCHANGED <<phase, owner, execCount, execOpenBy, reqEnded, falseSeen, mustInline, qTrue>>
+            /\ UNCHANGED <<phase, owner, execCount, execOpenBy, reqEnded, falseSeen, mustInline, qTrue, fused>>
 ReqEnd == /\ Is("ReqEnd") /\ reqOpen[E.t] > 0
           /\ IF E.r = 0
              THEN /\ ~falseSeen                                \* exactly one caller is the first
@@ -77,13 +80,13 @@ ReqEnd == /\ Is("ReqEnd") /\ reqOpen[E.t] > 0
                   /\ falseSeen' = TRUE
              ELSE /\ UNCHANGED falseSeen
           /\ reqOpen' = [reqOpen EXCEPT ![E.t] = @ - 1] /\ reqEnded' = TRUE
-          /\ UNCHANGED <<phase, owner, execCount, execOpenBy, reqBegun, mustInline, owed, qTrue>>
+          /\ UNCHANGED <<phase, owner, execCount, execOpenBy, reqBegun, mustInline, owed, qTrue, fused>>
 \* stop_requested(): false before any request began, true once any request returned, never reverts
 Query == /\ Is("Query")
          /\ (E.r = 1) => reqBegun
          /\ (E.r = 0) => (~reqEnded /\ ~qTrue)
          /\ qTrue' = (qTrue \/ E.r = 1)
-         /\ UNCHANGED <<phase, owner, execCount, execOpenBy, reqOpen, reqBegun, reqEnded, falseSeen, mustInline, owed>>
+         /\ UNCHANGED <<phase, owner, execCount, execOpenBy, reqOpen, reqBegun, reqEnded, falseSeen, mustInline, owed, fused>>
 Next == Reset \/ RegBegin \/ RegEnd \/ ExecBegin \/ ExecEnd \/ DeregBegin \/ DeregEnd \/ ReqBegin \/ ReqEnd \/ Query
 Spec == Init /\ [][Next]_vars
 Track == TrackAt(l, Closed)
